@@ -717,6 +717,17 @@ class Interp:
             return v.m_getattr(self, name)
         if isinstance(v, Opaque):
             return Opaque(v.name + '.' + name)
+        if isinstance(v, Sym) and v.is_gtype():
+            # a symbolic gate type: branch over the types it can be on this path and use the real GateType constant
+            gm = self.load_module('cirbo.core.circuit.gate')
+            t = z3.simplify(v.t)
+            for tn, const in GT.items():
+                if t.eq(const):
+                    return self.getattr(gm.env[tn], name)
+            for tn, const in GT.items():
+                if self.ctx.feasible(v.t == const) and self.ctx.choose(v.t == const):
+                    return self.getattr(gm.env[tn], name)
+            raise Infeasible()
         m = self.lib.method(v, name)
         if m is not NOTFOUND:
             return m
